@@ -37,6 +37,10 @@ type Options struct {
 	NoInputDirectives bool
 	// Cycles: add a mutual cycle of non-null object fields between two object types
 	Cycles bool
+	// SameBase: the files share one base name in different directories (d0/schema.graphqls,
+	// d1/schema.graphqls, ...), which the follow-schema layouts merge into one generated file;
+	// directive declarations are then spread over the files
+	SameBase bool
 }
 
 type Schema struct {
@@ -417,6 +421,9 @@ func Generate(t *rapid.T, opt Options) *Schema {
 	// directives
 	if !opt.NoDirectives {
 		nd := rapid.IntRange(0, 2).Draw(t, "ndirs")
+		if opt.SameBase && opt.ExecDirectives {
+			nd = rapid.IntRange(2, 3).Draw(t, "ndirs-samebase")
+		}
 		for i := 0; i < nd; i++ {
 			d := dirDef{name: []string{"tag", "auth", "limit"}[i], desc: g.desc(), repeatable: rapid.Bool().Draw(t, "repeatable")}
 			locs := []string{"FIELD_DEFINITION", "ARGUMENT_DEFINITION", "INPUT_FIELD_DEFINITION", "OBJECT", "ENUM_VALUE", "INTERFACE", "UNION", "ENUM", "INPUT_OBJECT"}
@@ -432,6 +439,18 @@ func Generate(t *rapid.T, opt Options) *Schema {
 			k := rapid.IntRange(1, 4).Draw(t, "nlocs")
 			perm := rapid.Permutation(locs).Draw(t, "locs")
 			d.locs = perm[:k]
+			if opt.SameBase && opt.ExecDirectives {
+				// every directive also has an executable location, so that each file that declares
+				// one takes part in the operation / field middleware of the merged generated file
+				x := rapid.SampledFrom([]string{"QUERY", "MUTATION", "SUBSCRIPTION", "FIELD"}).Draw(t, "execloc")
+				has := false
+				for _, l := range d.locs {
+					has = has || l == x
+				}
+				if !has {
+					d.locs = append(append([]string{}, d.locs...), x)
+				}
+			}
 			na := rapid.IntRange(0, 2).Draw(t, "ndirargs")
 			for j := 0; j < na; j++ {
 				a := arg{name: []string{"name", "level"}[j], typ: []string{"String", "Int!"}[j], desc: g.desc()}
@@ -636,11 +655,15 @@ func Generate(t *rapid.T, opt Options) *Schema {
 		return &bufs[rapid.IntRange(0, nfiles-1).Draw(t, "file")]
 	}
 	dirFile := pick()
-	for _, d := range g.dirs {
+	for di, d := range g.dirs {
 		b := pick()
-		if opt.ExecDirectives {
+		if opt.SameBase && opt.ExecDirectives {
+			b = &bufs[di%nfiles]
+		}
+		if opt.ExecDirectives && !opt.SameBase {
 			// directives of executable locations declared in different files collide in gqlgen's
-			// follow-schema layout (known finding): keep all declarations in one file
+			// follow-schema layout (known finding): keep all declarations in one file, unless the
+			// files are merged into one generated file anyway
 			b = dirFile
 		}
 		b.WriteString(renderDesc(d.desc, ""))
@@ -724,7 +747,11 @@ func Generate(t *rapid.T, opt Options) *Schema {
 	}
 	for i := range bufs {
 		if bufs[i].Len() > 0 || i == 0 {
-			out.Files[fmt.Sprintf("schema%d.graphqls", i)] = bufs[i].String()
+			name := fmt.Sprintf("schema%d.graphqls", i)
+			if opt.SameBase {
+				name = fmt.Sprintf("d%d/schema.graphqls", i)
+			}
+			out.Files[name] = bufs[i].String()
 		}
 	}
 	if g.opt.Hostile {
